@@ -70,7 +70,7 @@ def tainted_defs(f, keys):
         a = asg(n)
         if a and key_of(a[0]) in keys:
             out.setdefault(e, []).append((key_of(a[0]), classify_rhs(strip_casts(strip_wrappers(a[1])), keys)))
-        if k in ("call", "mcall") and last(n.get("callee", "")) in ("parseFullUInt", "from_chars"):
+        if k in ("call", "mcall") and last(n.get("callee", "")) in ("parseFullUInt", "from_chars", "parseChunkSizeLine"):
             for x in n.get("args", []):
                 if key_of(x) in keys:
                     out.setdefault(e, []).append((key_of(x), "src"))
@@ -226,8 +226,8 @@ def r2(ctx, r):
             n = e.node
             if n.get("k") == "call" and last(n.get("callee", "")) in NUM_PARSERS and (n.get("callee", "").startswith("std::") or "::" not in n.get("callee", "")):
                 sites.append((f, e))
-    if len(sites) < 5:
-        raise AnalysisBroken("only %d numeric parse sites found in the HTTP files (floor 5)" % len(sites))
+    if len(sites) < 3:
+        raise AnalysisBroken("only %d numeric parse sites found in the HTTP files (floor 3)" % len(sites))
     for (f, e) in sites:
         n = e.node
         nm = last(n["callee"])
@@ -246,6 +246,46 @@ def r2(ctx, r):
         r.expect((okd and oke) or idx_ok, f, e, "lenient numeric parse: %s(%s)" % (nm, sv), "%s parses the peer-supplied length `%s` with std::%s, which skips leading white space, accepts a sign%s and stops at the first non-digit; "
                  "no all-digits test on `%s` dominates the call, so `+5`, ` 5`, `5junk`%s are framed by guesswork instead of being rejected (the sibling HttpClient::parseFullUInt requires full consumption)"
                  % (last(f.name), sv, nm, " and a 0x prefix" if base == 16 else "", sv, ", `0x5`" if base == 16 else ""), okdesc="%s: %s(%s) behind an all-digits test" % (last(f.name), nm, sv))
+    # from_chars wrappers: error code and full consumption tested, empty input rejected
+    fcs = []
+    for f in fb.functions:
+        if f.ok and f.file.endswith((HSF, HCF, HMF)):
+            for e in f.stmts():
+                if e.node.get("k") == "call" and last(e.node.get("callee", "")) == "from_chars":
+                    fcs.append((f, e))
+    if len(fcs) < 2:
+        raise AnalysisBroken("only %d from_chars sites in the HTTP files (floor 2: client parseFullUInt, parseChunkSizeLine)" % len(fcs))
+    for (f, e) in fcs:
+        end = show(strip_casts(e.node["args"][1]))
+        txt = [show(x.node) for x in f.stmts() if "root" in x.raw]
+        has_ptr = any(".ptr" in t and end in t and ("==" in t or "!=" in t) for t in txt)
+        has_ec = any(".ec" in t and "errc" in t for t in txt)
+        nonempty = any(common.cmp_parts(b.cond) and common.cmp_parts(b.cond)[0] == "==" and (const_value(common.cmp_parts(b.cond)[2]) == 0 or show(strip_casts(b.cond)) in ("b == e", "e == b")) for b in f.blocks.values() if b.cond is not None) or \
+            any(("== 0" in t) and ("digits" in t or "size()" in t) for t in txt)
+        r.instance()
+        r.expect(has_ptr and has_ec and nonempty, f, e, "from_chars result not fully checked", "%s calls std::from_chars but does not test %s: a value followed by junk, an overflow or an empty field is accepted as a length"
+                 % (last(f.name), ", ".join(x for x, ok in (("full consumption (ptr == end)", has_ptr), ("the error code", has_ec), ("a non-empty digit run", nonempty)) if not ok)), okdesc="%s: from_chars with ec, ptr == end and non-empty tests" % last(f.name))
+    # the chunk-size helper is what both request-side chunk parsers use, and its failure is terminal
+    pcs = [f for f in fb.funcs("iora::network::HttpResponse::parseChunkSizeLine") if f.ok]
+    users = {"findChunkedRequestEnd": fn(ctx, HS, "findChunkedRequestEnd", HSF), "parseChunkedBody": [f for f in fb.funcs("iora::network::HttpResponse::parseChunkedBody") if f.ok][0]}
+    for nm, f in users.items():
+        calls = [e for e in f.stmts() if e.node.get("k") in ("call", "mcall") and last(e.node.get("callee", "")) == "parseChunkSizeLine"]
+        r.instance()
+        ok = len(pcs) == 1 and len(calls) == 1
+        if ok:
+            b = calls[0].block
+            c = strip_casts(b.cond) if b.cond is not None else None
+            ok = c is not None and c.get("k") == "un" and c.get("op") == "!" and strip_casts(c["v"]) is calls[0].node
+            if ok:
+                # on failure nothing uses the (unset) size: the arm leaves the loop / function
+                els = _reach_until_ret(f, b.succs[0])
+                ok = not any(x.kind == "stmt" and any(y.get("k") == "var" and y["n"] == "chunkSize" for y in walk(x.node)) for x in els[:8])
+        r.expect(ok, f, calls[0] if calls else None, "chunk size parse", "%s does not parse chunk-size lines through the strict HttpResponse::parseChunkSizeLine with a terminal failure arm" % nm, okdesc="%s: strict chunk-size parse, failure is terminal" % nm)
+    h0 = fn(ctx, HS, "handleIncomingData", HSF)
+    inv = [b for b in h0.blocks.values() if b.cond is not None and key_of(b.cond) == "invalidChunkSize"]
+    r.instance()
+    r.expect(len(inv) == 1 and any(x.kind == "stmt" and x.node.get("k") == "mcall" and last(x.node.get("callee", "")) == "sendErrorResponse" for x in _reach_until_ret(h0, inv[0].succs[0])), h0, None, "invalid chunk size unanswered",
+             "an invalid chunk-size line is treated as 'need more data' (the connection hangs) instead of being answered 400", okdesc="invalid chunk size → 400, close")
     # client: strict wrapper
     pf = fn(ctx, HC, "parseFullUInt", HCF)
     fc = [e for e in pf.stmts() if e.node.get("k") == "call" and last(e.node.get("callee", "")) == "from_chars"]
@@ -510,8 +550,8 @@ def r4(ctx, r):
 def r5(ctx, r):
     # progress statements per loop (a cycle that avoids all of them does not consume input)
     specs = [
-        (fn(ctx, HS, "findChunkedRequestEnd", HSF), lambda e: asg(e.node) and key_of(asg(e.node)[0]) == "pos" and lin(asg(e.node)[1]) is not None and lin(asg(e.node)[1])[0] >= 1 and "chunkSizeLine" in lin(asg(e.node)[1])[1],
-         "pos = chunkSizeLine + k (k >= 1)"),
+        (fn(ctx, HS, "findChunkedRequestEnd", HSF), lambda e: asg(e.node) and key_of(asg(e.node)[0]) == "pos" and lin(asg(e.node)[1]) is not None and lin(asg(e.node)[1])[0] >= 1 and ({"chunkSizeLine", "lineEnd"} & set(lin(asg(e.node)[1])[1])),
+         "pos = <CRLF just found> + k (k >= 1)"),
         (fn(ctx, HC, "advanceChunked", HCF), lambda e: asg(e.node) and show(strip_casts(asg(e.node)[0])) in ("st.pos", "tp") and lin(asg(e.node)[1]) is not None and lin(asg(e.node)[1])[0] >= 1 and
          ({"dataStart", "tnl"} & set(lin(asg(e.node)[1])[1])) or (e.node.get("k") == "un" and "++" in e.node.get("op", "") and key_of(e.node["v"]) in ("hexEnd", "q")), "st.pos/tp advanced past the line just found"),
         (fn(ctx, HC, "frameResponse", HCF), lambda e: e.node.get("k") == "mcall" and last(e.node.get("callee", "")) == "erase" and key_of(e.node.get("obj")) == "data" and lin(e.node["args"][1]) is not None and lin(e.node["args"][1])[0] >= 1,
